@@ -9,7 +9,8 @@ PROP = {
     "rule": "Real server on loopback TCP: fixed and seeded random traces mixing Start, Stop, connect, held accept goroutine across "
             "Stop (and Stop;Start), requests, disconnects, held removals; after every step the started flag, active-list length and "
             "probe outcomes (a request after Stop must find the connection closed; a connection accepted during Stop must be refused; "
-            "Start after Stop serves on the same address) are compared with the transition system.",
+            "Start after Stop serves on the same address) are compared with the transition system."
+            " The lock-skeleton extractor tracks local aliases of shared slice/map fields (a copy of the slice header used after Unlock is an access to the field outside the lock).",
     "assumptions": ["goroutine liveness after Stop and data-race freedom are runtime facts: see level note"],
 }
 
